@@ -11,3 +11,7 @@ import J1939.Props.C19
 #print axioms J1939.Props.C19.c19_intruder_noop
 #print axioms J1939.Props.C19.c19_intruders_noop
 #print axioms J1939.Props.C19.c19_unsubscribed_silent
+#print axioms J1939.Props.C19.c19_intx_after_open
+#print axioms J1939.Props.C19.c19_intx_closing
+#print axioms J1939.Props.C19.c19_intx_read_long
+#print axioms J1939.Props.C19.c19_intx_write_wait
